@@ -165,6 +165,32 @@ func main() {
 		c.Count("connection-pair")
 	}
 
+	// Allocation continues across Close(): a handler that still holds the
+	// connection must never be handed an identifier the connection issued
+	// before (a connection's identifiers are unique for that connection).
+	runAcrossClose := func(dialer bool, g, m int) {
+		id, _ := identity.NewAgentID()
+		cn := peer.NewConnection(&fakeConn{dialer: dialer}, peer.DefaultConnectionConfig(id))
+		before := storm(g, m, cn.NextStreamID)
+		var during []uint64
+		var wg sync.WaitGroup
+		wg.Add(2)
+		go func() { defer wg.Done(); during = storm(g, m, cn.NextStreamID) }()
+		go func() { defer wg.Done(); cn.Close() }()
+		wg.Wait()
+		after := storm(g, m, cn.NextStreamID)
+		all := append(append(append([]uint64{}, before...), during...), after...)
+		start := uint64(2)
+		if dialer {
+			start = 1
+		}
+		r := replay{Kind: "across-close", Start: start, Dialer: dialer, Goroutines: g, PerG: m}
+		c.Case(fmt.Sprintf("close/%v/%d/%d", dialer, g, m), true, r)
+		addCase(r, append([]uint64{}, all...))
+		monitor(r, all, dialer)
+		c.Count("across-close")
+	}
+
 	if c.Replay != "" {
 		var r replay
 		if err := c.ReadReplay(&r); err != nil {
@@ -172,6 +198,8 @@ func main() {
 		}
 		if r.Kind == "connection-pair" {
 			runPair(r.Goroutines, r.PerG)
+		} else if r.Kind == "across-close" {
+			runAcrossClose(r.Dialer, r.Goroutines, r.PerG)
 		} else {
 			runAllocator(r)
 		}
@@ -184,6 +212,9 @@ func main() {
 			} else {
 				runAllocator(replay{Kind: "allocator", Start: uint64(2 - i%2), Dialer: i%2 == 1, Goroutines: 8, PerG: 1 + i%2})
 			}
+		}
+		for i := 0; i < c.N(20, 200); i++ {
+			runAcrossClose(i%2 == 0, 1+i%4, 1+i%3)
 		}
 		n := c.N(60, 600)
 		for i := 0; i < n; i++ {
